@@ -110,7 +110,7 @@ def menu(doc, reduced=False):
 
 def bounds(tier, seed):
     return {"start_docs": len(start_docs(tier)), "len1": "all start docs, full menu",
-            "len2": "%d start docs, full menu" % (4 if tier == "quick" else 24),
+            "len2": "%d start docs, full menu" % (3 if tier == "quick" else len(len2_docs("thorough"))),
             "len3": "none" if tier == "quick" else "6 start docs, reduced menu"}
 
 
@@ -154,7 +154,8 @@ def plan(tier, seed):
     n = len(start_docs(tier))
     for part in chunks(list(range(n)), 24 if tier == "quick" else 48):
         shards.append(("L1", tier, part[0], part[-1] + 1))
-    nd = 4 if tier == "quick" else 24
+    n2 = len(len2_docs("thorough"))
+    nd = 3 if tier == "quick" else n2
     for i in range(nd):
         for k in range(16):
             shards.append(("L2", tier, i, k, 16))
@@ -163,8 +164,10 @@ def plan(tier, seed):
         shards.append(("STR", lo, min(ns, lo + 600)))
     if tier == "quick":
         # one extra complete length-2 block chosen by the seed (a start document of the thorough set)
-        for k in range(8):
-            shards.append(("L2", "thorough", 4 + seed % 20, k, 8))
+        # (half of that document's length-2 histories: the first operations of even or odd rank, by the seed)
+        for k in range(16):
+            if k % 2 == (seed // (n2 - 3)) % 2:
+                shards.append(("L2", "thorough", 3 + seed % (n2 - 3), k, 16))
     else:
         for i in range(6):
             for k in range(16):
